@@ -259,6 +259,9 @@ def plan(tier, seed):
             # half of the workloads address virtual hosts: same URL origin (so the same pooled connections), a Host header
             # of their own per request; the origin reports the Host / :authority it was asked for
             sp["vhosts"] = sp["seed"] % 2 == 0
+            # a third of the HTTP/1.1 workloads talk to a server that now and then sends a second, unsolicited response
+            # right behind a complete one
+            sp["unsolicited"] = sp["seed"] % 3 == 0
         cases.append({"flavor": flavor, "specs": specs, "seed": r.randrange(1 << 30)})
     for flavor in ("asyncio", "trio", "sync"):
         for ctype in (("h1", "fwd") if tier == "quick" else ("h1", "h1tls", "fwd", "tun", "socks")):
